@@ -869,9 +869,12 @@ static int sexp_grow_stack (sexp ctx, int min_size) {
   sexp stack, old_stack = sexp_context_stack(ctx), *from, *to;
   int i, size = sexp_stack_length(old_stack), new_size;
   new_size = size * 2;
-  if (new_size < min_size) new_size = min_size;
+  /* min_size is the room needed above the current top */
+  if (new_size <= sexp_context_top(ctx) + min_size)
+    new_size = sexp_context_top(ctx) + min_size + 1;
   if (new_size > SEXP_MAX_STACK_SIZE) {
-    if (size == SEXP_MAX_STACK_SIZE)
+    if (size == SEXP_MAX_STACK_SIZE
+        || sexp_context_top(ctx) + min_size >= SEXP_MAX_STACK_SIZE)
       return 0;
     new_size = SEXP_MAX_STACK_SIZE;
   }
